@@ -214,16 +214,46 @@ def make_machine(acc):
     return PnHistory
 
 
+def evaluate_stack(spec):
+    """real protected packets through tlexport.main (Retry, skipped packet numbers in every space, coalescing, reordering-free): the packet
+    number handed to the AEAD for every packet must be the one the sender used (observed by wrapping QuicDecryptor.decrypt, as in C15)"""
+    from checks import c15
+    r = c15.evaluate_quic(spec)
+    if r.get("sig"):
+        r = dict(r, sig="through the stack: " + r["sig"])
+    r["labels"] = ["stack"] + [x for x in r.get("labels", []) if x.startswith("f:")]
+    return r
+
+
+def stack_specs():
+    import scenario
+    out = []
+    data = lambda d, n, gap=0: {"op": "data", "d": d, "pk": [{"fr": [["stream", 0, n, None, False, True, None]], "gap": gap, "pnl": 0}]}
+    i = 0
+    for suite in (0x1301, 0x1303):
+        for retry in (False, True):
+            for gaps in ([0], [300, 0, 0, 0], [0, 0, 70000, 5], [1 << 20, 3, 0, 300, 0, 0], [255, 0, 0, 0, 0], [65535, 0, 256, 0]):
+                for hs_pnl in (0, 2, 4):
+                    out.append({"conns": [{"kind": "quic", "seed": 1600 + i, "suite": suite, "retry": retry, "hs_gaps": gaps, "hs_pnl": hs_pnl,
+                                           "hs_coalesce": bool(i % 2), "steps": [data(0, 10, 200), data(1, 11, 70000), data(0, 12), data(1, 13)],
+                                           "ep": scenario.default_ep(i % 50)}], "tseed": 1 + i})
+                    i += 1
+    return out
+
+
 def stages(tier):
     quick = tier == "quick"
     return [
+        Stage("through-the-stack", evaluate_stack, specs=stack_specs()),
         Stage("boundaries", evaluate, specs=boundary_specs(full=not quick), chunksize=4096),
         Stage("random", evaluate, strategy=lambda t: random_case(), examples=60000 if quick else 2000000, shrink=True),
         machine_stage("histories", make_machine, runs=1600 if quick else 100000, steps=40, evaluate=replay_trace),
     ]
 
 
-RULE = ("direct calls of the packet-number reconstruction on a stub session: (largest, length, truncated) enumerated around every window / "
+RULE = ("stage through-the-stack: real protected packets (2 suites x Retry x skipped packet numbers in every space x encoded lengths) through "
+        "tlexport.main, the packet number given to the AEAD compared with the sender's for every packet; then direct calls of the packet-number "
+        "reconstruction on a stub session: (largest, length, truncated) enumerated around every window / "
         "half-window / 2^62 boundary at magnitudes 2^0..2^62 for all four lengths, random elsewhere; plus rule-based histories (gaps, late "
         "arrivals, >2^53 jumps) over 4 packet types x 2 directions with an RFC A.3 model per (space, direction).  Non-trivial: the candidate "
         "is adjusted by +-window or lies within 3 of a decision boundary (direct); history with >=3 packets in >=2 (space,direction) pairs "
